@@ -263,7 +263,7 @@ def run(ctx):
         states = transitions = 1
     else:
         w = 4 if ctx.quick else 8
-        specs = [("main", 220, 5, "main", ctx.seed, 1), ("unsat", 60, 2, "unsat", ctx.seed + 500, 1)] if ctx.quick else \
+        specs = [("main", 180, 5, "main", ctx.seed, 1), ("unsat", 40, 2, "unsat", ctx.seed + 500, 1)] if ctx.quick else \
                 [("main", 1000, 5, "main", ctx.seed, 1), ("deep", 200, 8, "main", ctx.seed + 1000, 1),
                  ("tree", 40, 4, "main", ctx.seed + 2000, 2), ("unsat", 300, 2, "unsat", ctx.seed + 500, 1)]
         cases, states, transitions = [], 0, 0
